@@ -4,6 +4,7 @@ package c14
 import (
 	"bytes"
 	"fmt"
+	"io"
 	"math/big"
 	"testing"
 
@@ -20,6 +21,71 @@ type RTCase struct {
 	Base Base `json:"base"`
 	// Inputs are 0/1 strings over the input wires; empty = all 2^n.
 	Inputs []string `json:"inputs"`
+	// Fault: a marshalling of the same circuit that FAILS runs first in the
+	// same process - into a writer that reports an error after Fault.After
+	// bytes ("writer") or with one gate of an unsupported type ("gate").
+	// Its error is not judged; what it leaves behind must not reach the
+	// marshalling that follows.
+	Fault *RTFault `json:"fault,omitempty"`
+}
+
+// RTFault describes the failing marshalling of RTCase.Fault.
+type RTFault struct {
+	Kind  string `json:"kind"` // writer | gate
+	After int    `json:"after,omitempty"`
+	Gate  int    `json:"gate,omitempty"`
+}
+
+type failAfter struct {
+	left int
+}
+
+func (w *failAfter) Write(p []byte) (int, error) {
+	if len(p) > w.left {
+		n := w.left
+		w.left = 0
+		return n, fmt.Errorf("injected write error")
+	}
+	w.left -= len(p)
+	return len(p), nil
+}
+
+// preFault performs the failing marshalling.  Neither its error nor a panic is
+// judged (an in-memory circuit with an unsupported gate type is not a circuit
+// the property speaks about; MarshalBristol panics on it): only its effect on
+// the marshalling that follows is.
+func preFault(c *circuit.Circuit, f *RTFault, bristol bool) (sig, msg string) {
+	defer func() { recover() }()
+	var w io.Writer = io.Discard
+	switch f.Kind {
+	case "writer":
+		w = &failAfter{left: f.After}
+	case "gate":
+		if len(c.Gates) == 0 {
+			return "", ""
+		}
+		c.Gates = append([]circuit.Gate{}, c.Gates...)
+		c.Gates[((f.Gate%len(c.Gates))+len(c.Gates))%len(c.Gates)].Op = 77
+	default:
+		return "", ""
+	}
+	if bristol {
+		c.MarshalBristol(w)
+	} else {
+		c.Marshal(w)
+	}
+	return "", ""
+}
+
+func drawFault(t *rapid.T, ngates int) *RTFault {
+	if rapid.IntRange(0, 7).Draw(t, "fault") != 0 {
+		return nil
+	}
+	if rapid.Bool().Draw(t, "faultgate") {
+		return &RTFault{Kind: "gate", Gate: rapid.IntRange(0, 1<<20).Draw(t, "gate")}
+	}
+	after := rapid.SampledFrom([]int{0, 1, 4, 19, 20, 21, 64, 100, 1000, 4095, 4096, 65535, 65536, 70000}).Draw(t, "after")
+	return &RTFault{Kind: "writer", After: after}
 }
 
 func init() {
@@ -65,6 +131,7 @@ func genRoundTrip(t *rapid.T) RTCase {
 	var cs RTCase
 	cs.Base = drawBase(t, rtOpts(t))
 	cs.Inputs = drawInputs(t, cs.Base.Circ.NumIn())
+	cs.Fault = drawFault(t, len(cs.Base.Circ.Gates))
 	return cs
 }
 
@@ -236,6 +303,11 @@ func runRoundTripMPCLC(cs RTCase) ev.Outcome {
 		}
 	}
 
+	if cs.Fault != nil {
+		if sig, msg := preFault(b.Build(), cs.Fault, false); sig != "" {
+			return ev.Fail("mpclc/"+sig, "%s", msg)
+		}
+	}
 	var buf bytes.Buffer
 	if err := orig.Marshal(&buf); err != nil {
 		return ev.Fail("mpclc/roundtrip/marshal-error", "Marshal: %v", err)
@@ -327,6 +399,11 @@ func runRoundTripBristol(cs RTCase) ev.Outcome {
 		return ev.Outcome{Skip: "inconsistent case"}
 	}
 	orig := b.Build()
+	if cs.Fault != nil {
+		if sig, msg := preFault(b.Build(), cs.Fault, true); sig != "" {
+			return ev.Fail("bristol/"+sig, "%s", msg)
+		}
+	}
 	var buf bytes.Buffer
 	if err := orig.MarshalBristol(&buf); err != nil {
 		return ev.Fail("bristol/roundtrip/marshal-error", "MarshalBristol: %v", err)
